@@ -46,10 +46,12 @@
 package coregex
 
 import (
+	"bytes"
 	"io"
 	"iter"
 	"regexp/syntax"
 	"strings"
+	"unicode"
 	"unicode/utf8"
 	"unsafe"
 
@@ -947,51 +949,98 @@ func (r *Regex) ExpandString(dst []byte, template string, src string, match []in
 }
 
 // expand appends template to dst and returns the result; during the
-// append, it replaces $1, $2, etc. with the corresponding submatch.
-// $0 is the entire match.
+// append, it replaces variables of the form $name and ${name} (numeric names
+// such as $1 or ${10} refer to submatches by index, other names to named
+// groups) with the corresponding submatch, and $$ with a literal $. The
+// template grammar is the one of regexp.Regexp.Expand.
 func (r *Regex) expand(dst []byte, template []byte, src []byte, match []int) []byte {
-	i := 0
-	for i < len(template) {
-		if template[i] != '$' || i+1 >= len(template) {
-			dst = append(dst, template[i])
-			i++
+	tmpl := template
+	for len(tmpl) > 0 {
+		k := bytes.IndexByte(tmpl, '$')
+		if k < 0 {
+			break
+		}
+		dst = append(dst, tmpl[:k]...)
+		tmpl = tmpl[k+1:]
+		if len(tmpl) > 0 && tmpl[0] == '$' {
+			dst = append(dst, '$')
+			tmpl = tmpl[1:]
 			continue
 		}
-
-		// Handle $ escape sequences
-		next := template[i+1]
-
-		// Check for $0-$9
-		if next >= '0' && next <= '9' {
-			groupNum := int(next - '0')
-			// Each group occupies 2 indices in match array
-			groupIdx := groupNum * 2
-			if groupIdx+1 < len(match) && match[groupIdx] >= 0 {
-				dst = append(dst, src[match[groupIdx]:match[groupIdx+1]]...)
+		name, num, rest, ok := extractName(tmpl)
+		if !ok {
+			// Malformed; treat $ as raw text.
+			dst = append(dst, '$')
+			continue
+		}
+		tmpl = rest
+		if num >= 0 {
+			if 2*num+1 < len(match) && match[2*num] >= 0 {
+				dst = append(dst, src[match[2*num]:match[2*num+1]]...)
 			}
-			i += 2
 			continue
 		}
-
-		// Check for ${name} - not supported yet, treat as literal
-		if next == '{' {
-			dst = append(dst, '$')
-			i++
-			continue
+		for i, namei := range r.SubexpNames() {
+			if string(name) == namei && 2*i+1 < len(match) && match[2*i] >= 0 {
+				dst = append(dst, src[match[2*i]:match[2*i+1]]...)
+				break
+			}
 		}
+	}
+	dst = append(dst, tmpl...)
+	return dst
+}
 
-		// $$ -> $
-		if next == '$' {
-			dst = append(dst, '$')
-			i += 2
-			continue
+// extractName returns the name from a leading "name" or "{name}" in str
+// (the $ has already been removed by the caller). If the name is a number,
+// num is that number; otherwise num is -1.
+func extractName(str []byte) (name []byte, num int, rest []byte, ok bool) {
+	if len(str) == 0 {
+		return
+	}
+	brace := false
+	if str[0] == '{' {
+		brace = true
+		str = str[1:]
+	}
+	i := 0
+	for i < len(str) {
+		c, size := utf8.DecodeRune(str[i:])
+		if !unicode.IsLetter(c) && !unicode.IsDigit(c) && c != '_' {
+			break
 		}
-
-		// Unknown $ escape, treat as literal
-		dst = append(dst, '$')
+		i += size
+	}
+	if i == 0 {
+		// empty name is not okay
+		return
+	}
+	name = str[:i]
+	if brace {
+		if i >= len(str) || str[i] != '}' {
+			// missing closing brace
+			return
+		}
 		i++
 	}
-	return dst
+
+	// Parse number.
+	num = 0
+	for k := 0; k < len(name); k++ {
+		if name[k] < '0' || '9' < name[k] || num >= 1e8 {
+			num = -1
+			break
+		}
+		num = num*10 + int(name[k]) - '0'
+	}
+	// Disallow leading zeros.
+	if name[0] == '0' && len(name) > 1 {
+		num = -1
+	}
+
+	rest = str[i:]
+	ok = true
+	return
 }
 
 // ReplaceAll returns a copy of src, replacing matches of the pattern
